@@ -294,6 +294,10 @@ func StripParens(n *N) *N {
 		c.Kids[i] = StripParens(k)
 	}
 	if c.Kind == "FuncType" && len(c.Kids) == 4 {
+		// go/printer drops an empty result list "()" altogether
+		if r := c.Kids[3]; r.Kind == "FieldList" && len(r.Kids) == 3 && r.Kids[1].Kind == "[]" && len(r.Kids[1].Kids) == 0 {
+			c.Kids[3] = &N{Kind: "leaf", Leaf: "nil", Static: r.Static}
+		}
 		// go/printer drops the parentheses around a single unnamed result
 		if r := c.Kids[3]; r.Kind == "FieldList" && len(r.Kids) == 3 && r.Kids[1].Kind == "[]" && len(r.Kids[1].Kids) == 1 {
 			f := r.Kids[1].Kids[0]
